@@ -8,38 +8,136 @@ package layer2
 // explicitly and are not started either (the harness calls processRequest).
 
 import (
+	"fmt"
 	"net"
+	"reflect"
+	"unsafe"
 
 	"github.com/go-kit/log"
 	"github.com/mdlayher/arp"
 	"github.com/mdlayher/ndp"
 )
 
-// VerifNew returns an announcer that owns no goroutine. SetBalancer queues the
-// advertisement on spamCh (capacity 1<<16); the caller drains it with
-// VerifDrainSpam.
-func VerifNew(l log.Logger, nodeInterfaces []string) *Announce {
-	if l == nil {
-		l = log.NewNopLogger()
+// ---- accessor layer: unexported state is reached by field NAME through reflect, so that a
+// change of representation (map key type, entries dropped at zero, ...) neither breaks the
+// build of the harness nor its comparisons.  A field that is absent or of an unexpected kind
+// is reported in VerifSkipped and the white-box comparison is skipped by the caller.
+
+// VerifSkipped lists the white-box accesses that could not be made on this tree.
+var VerifSkipped = map[string]bool{}
+
+func vField(p any, name string) reflect.Value {
+	v := reflect.ValueOf(p)
+	for v.IsValid() && (v.Kind() == reflect.Ptr || v.Kind() == reflect.Interface) {
+		if v.IsNil() {
+			return reflect.Value{}
+		}
+		v = v.Elem()
 	}
-	return &Announce{
-		logger:         l,
-		nodeInterfaces: append([]string{}, nodeInterfaces...),
-		arps:           map[int]*arpResponder{},
-		ndps:           map[int]*ndpResponder{},
-		ips:            map[string][]IPAdvertisement{},
-		ipRefcnt:       map[string]int{},
-		spamCh:         make(chan IPAdvertisement, 1<<16),
+	if !v.IsValid() || v.Kind() != reflect.Struct {
+		return reflect.Value{}
+	}
+	return v.FieldByName(name)
+}
+
+// vSet stores x into the (unexported) field name of *p when the types agree
+func vSet(p any, name string, x reflect.Value) bool {
+	f := vField(p, name)
+	if !f.IsValid() || !f.CanAddr() || !x.Type().AssignableTo(f.Type()) {
+		VerifSkipped["set:"+name] = true
+		return false
+	}
+	reflect.NewAt(f.Type(), unsafe.Pointer(f.UnsafeAddr())).Elem().Set(x)
+	return true
+}
+
+// vInit gives every nil map field of *p an empty map and every nil channel field a channel of
+// the given capacity (what the constructors do), whatever the element types are
+func vInit(p any, chanCap int) {
+	v := reflect.ValueOf(p).Elem()
+	for i := 0; i < v.NumField(); i++ {
+		f := v.Field(i)
+		w := reflect.NewAt(f.Type(), unsafe.Pointer(f.UnsafeAddr())).Elem()
+		switch {
+		case f.Kind() == reflect.Map && f.IsNil():
+			w.Set(reflect.MakeMap(f.Type()))
+		case f.Kind() == reflect.Chan && f.IsNil() && f.Type().ChanDir() == reflect.BothDir && chanCap >= 0:
+			w.Set(reflect.MakeChan(f.Type(), chanCap))
+		}
 	}
 }
 
-// VerifNewQueue builds the announcer field for field as New() does, with the given capacity
-// of the queue towards the gratuitous loop (production: 1024), WITHOUT interfaceScan (no raw
-// sockets). The REAL spamLoop is started by VerifStartSpamLoop: SetBalancer -> doSpam -> spamCh
-// -> spamLoop -> gratuitous is the production code path.
+// vKey renders a map key canonically: strings as they are (an IP text is re-rendered by
+// net.IP.String), integers in decimal, byte arrays / slices of 4 or 16 bytes as an IP
+func vKey(k reflect.Value) (string, bool) {
+	switch k.Kind() {
+	case reflect.String:
+		if ip := net.ParseIP(k.String()); ip != nil {
+			return ip.String(), true
+		}
+		return k.String(), true
+	case reflect.Int, reflect.Int8, reflect.Int16, reflect.Int32, reflect.Int64:
+		return fmt.Sprint(k.Int()), true
+	case reflect.Uint, reflect.Uint8, reflect.Uint16, reflect.Uint32, reflect.Uint64:
+		return fmt.Sprint(k.Uint()), true
+	case reflect.Array, reflect.Slice:
+		if k.Type().Elem().Kind() == reflect.Uint8 && (k.Len() == 4 || k.Len() == 16) {
+			b := make(net.IP, k.Len())
+			for i := range b {
+				b[i] = byte(k.Index(i).Uint())
+			}
+			return b.String(), true
+		}
+	}
+	return "", false
+}
+
+// vIntMap reads a map with integer values (missing entry == 0 for the caller)
+func vIntMap(m reflect.Value, what string) (map[string]int64, bool) {
+	if !m.IsValid() || m.Kind() != reflect.Map {
+		VerifSkipped[what] = true
+		return nil, false
+	}
+	out := map[string]int64{}
+	it := m.MapRange()
+	for it.Next() {
+		k, ok := vKey(it.Key())
+		if !ok {
+			VerifSkipped[what] = true
+			return nil, false
+		}
+		switch it.Value().Kind() {
+		case reflect.Int, reflect.Int8, reflect.Int16, reflect.Int32, reflect.Int64:
+			out[k] += it.Value().Int()
+		case reflect.Uint, reflect.Uint8, reflect.Uint16, reflect.Uint32, reflect.Uint64:
+			out[k] += int64(it.Value().Uint())
+		default:
+			VerifSkipped[what] = true
+			return nil, false
+		}
+	}
+	return out, true
+}
+
+// VerifNew returns an announcer that owns no goroutine: the fields New() initialises (maps,
+// the queue towards the spam loop) are initialised by kind, not by type. SetBalancer queues the
+// advertisement on spamCh (capacity 1<<16); the caller drains it with VerifDrainSpam.
+func VerifNew(l log.Logger, nodeInterfaces []string) *Announce {
+	return VerifNewQueue(l, nodeInterfaces, 1<<16)
+}
+
+// VerifNewQueue builds the announcer as New() does, with the given capacity of the queue towards
+// the gratuitous loop (production: 1024), WITHOUT interfaceScan (no raw sockets). The REAL
+// spamLoop is started by VerifStartSpamLoop: SetBalancer -> doSpam -> spamCh -> spamLoop ->
+// gratuitous is the production code path.
 func VerifNewQueue(l log.Logger, nodeInterfaces []string, capacity int) *Announce {
-	a := VerifNew(l, nodeInterfaces)
-	a.spamCh = make(chan IPAdvertisement, capacity)
+	if l == nil {
+		l = log.NewNopLogger()
+	}
+	a := &Announce{}
+	vSet(a, "logger", reflect.ValueOf(&l).Elem())
+	vSet(a, "nodeInterfaces", reflect.ValueOf(append([]string{}, nodeInterfaces...)))
+	vInit(a, capacity)
 	return a
 }
 
@@ -67,15 +165,20 @@ func (a *Announce) VerifShouldAnnounce(ip net.IP, intf string) int {
 // VerifGratuitous exposes gratuitous (what the spam loop calls).
 func (a *Announce) VerifGratuitous(adv IPAdvertisement) { a.gratuitous(adv) }
 
-// VerifRefcnt returns a copy of ipRefcnt.
-func (a *Announce) VerifRefcnt() map[string]int {
+// VerifRefcnt returns ipRefcnt keyed by the canonical address text (a missing entry is 0 for
+// the caller); ok=false when the field cannot be read that way on this tree.
+func (a *Announce) VerifRefcnt() (map[string]int, bool) {
 	a.RLock()
 	defer a.RUnlock()
-	m := make(map[string]int, len(a.ipRefcnt))
-	for k, v := range a.ipRefcnt {
-		m[k] = v
+	m, ok := vIntMap(vField(a, "ipRefcnt"), "ipRefcnt")
+	if !ok {
+		return nil, false
 	}
-	return m
+	out := map[string]int{}
+	for k, v := range m {
+		out[k] = int(v)
+	}
+	return out, true
 }
 
 // VerifServices returns the announced service names.
@@ -83,8 +186,13 @@ func (a *Announce) VerifServices() []string {
 	a.RLock()
 	defer a.RUnlock()
 	var out []string
-	for k := range a.ips {
-		out = append(out, k)
+	f := vField(a, "ips")
+	if !f.IsValid() || f.Kind() != reflect.Map || f.Type().Key().Kind() != reflect.String {
+		VerifSkipped["ips"] = true
+		return nil
+	}
+	for _, k := range f.MapKeys() {
+		out = append(out, k.String())
 	}
 	return out
 }
@@ -130,27 +238,25 @@ func (a *Announce) VerifAddNDP(index int, intf string, ifi *net.Interface) error
 	}
 	a.Lock()
 	defer a.Unlock()
-	a.ndps[index] = &ndpResponder{
-		logger:              a.logger,
-		intf:                intf,
-		hardwareAddr:        ifi.HardwareAddr,
-		conn:                conn,
-		closed:              make(chan struct{}),
-		announce:            a.shouldAnnounce,
-		solicitedNodeGroups: map[string]int64{},
+	r := &ndpResponder{
+		logger:       a.logger,
+		intf:         intf,
+		hardwareAddr: ifi.HardwareAddr,
+		conn:         conn,
+		closed:       make(chan struct{}),
+		announce:     a.shouldAnnounce,
 	}
+	vInit(r, -1) // the group counters, whatever their key type
+	a.ndps[index] = r
 	return nil
 }
 
-// VerifNDPGroups returns a copy of the responder's solicitedNodeGroups.
-func (a *Announce) VerifNDPGroups(index int) map[string]int64 {
+// VerifNDPGroups returns the responder's solicited-node group counters keyed by the group
+// address text (a missing entry is 0); ok=false when they cannot be read on this tree.
+func (a *Announce) VerifNDPGroups(index int) (map[string]int64, bool) {
 	a.RLock()
 	defer a.RUnlock()
-	m := map[string]int64{}
-	for k, v := range a.ndps[index].solicitedNodeGroups {
-		m[k] = v
-	}
-	return m
+	return vIntMap(vField(a.ndps[index], "solicitedNodeGroups"), "solicitedNodeGroups")
 }
 
 // VerifClose closes the sockets of the attached responders.
